@@ -21,6 +21,12 @@ Tie (harness/h_thr.c, every run):
      the YR_STRING of CALLBACK_MSG_TOO_MANY_MATCHES (a million matches).  Free running with hundreds of repetitions
      per thread AND deterministically: thread A is parked inside its k-th callback of a kind (every console message in
      turn) before it reads the message, thread B completes a whole scan with other values, then A reads.
+ (b'') per-scan resources are per scanner: timeouts (a CPU bound scan calibrated to ~0.4 s alone, 12 concurrent copies through
+     own scanners and yr_rules_scan_mem with a 2 s timeout must end as alone; scans that time out alone must time out
+     concurrently, neither early nor late; verdicts from wall time measured around every scan, so a loaded machine gives
+     "inconclusive", not a violation), the match cap (YR_MAX_STRING_MATCHES reached in one thread, others unchanged), the
+     regexp fiber pool (ERROR_TOO_MANY_RE_FIBERS in one thread, others unchanged), notebooks (matched bytes compared).
+     Profiling counters are not compiled in (YR_PROFILING_ENABLED is off in the harness build).
  (c) handler protocol: all threads are stopped inside callbacks (inside / outside a try section, with / without
      SCAN_FLAGS_NO_TRYCATCH); exception_handler_usecount, the SIGBUS disposition and the TLS slot are read and compared
      with the extracted model run on an interleaving of the same per-thread prefixes; a sampler thread checks
@@ -142,6 +148,15 @@ rule c_tagged : t1 t2 { meta: a = "x" b = 7 c = true strings: $a = "abc" conditi
 rule many : big { meta: why = "cap" strings: $a = "XX" condition: #a > 10 }
 rule slow { strings: $b = /X/ condition: $b }
 '''),
+    "fibers": ([], b'''
+rule f1 { strings: $r = /a(.{0,40}b){1,30}c/ condition: $r }
+rule f2 { strings: $q = /(a|ab|b|ba){1,100}x/ condition: $q }
+rule f3 { strings: $s = "ab" condition: #s > 2 }
+'''),
+    "time": (None, b'''
+rule busy { condition: for all i in (0..n) : (i >= 0) }
+rule plain { strings: $a = "abc" condition: $a }
+'''),
 }
 GENERIC = ("mix", "strings")          # rule sets driven by gen_jobs; the others have their own job lists
 N_CONSOLE_MSGS = 15                   # console messages of one scan of the "console" rule set when $a is present
@@ -169,8 +184,9 @@ def parse_runs(lines):
         elif cur is None:
             continue
         elif l.startswith("T "):
-            m = re.match(r"T (\d+) job=(\d+) reps=(\d+) same=(\d+) obs=(-?\d+)/(-?\d+)/(-?\d+) trace=(.*)$", l)
-            cur["T"].append((int(m.group(1)), int(m.group(2)), int(m.group(4)), (int(m.group(5)), int(m.group(6)), int(m.group(7))), m.group(8)))
+            m = re.match(r"T (\d+) job=(\d+) reps=(\d+) same=(\d+) obs=(-?\d+)/(-?\d+)/(-?\d+) (?:wall=(-?\d+)/(-?\d+) )?trace=(.*)$", l)
+            cur["T"].append((int(m.group(1)), int(m.group(2)), int(m.group(4)), (int(m.group(5)), int(m.group(6)), int(m.group(7))), m.group(10)))
+            cur.setdefault("wall", []).append((int(m.group(8) or -1), int(m.group(9) or -1)))
         elif l.startswith("W "):
             m = re.match(r"W ent=(\S+) off=(\d+) tid=(-?\d+)", l)
             cur["W"].append((m.group(1), int(m.group(2)), int(m.group(3))))
@@ -371,13 +387,58 @@ def run(chk):
         for ji in range(len(jobs)):
             cmds.append("run 1 %d" % ji)
             plan.append(("ref", [ji]))
-        cmds += ["run 1 0 1", "run 1 3 2"]
-        plan += [("conc", [0, 1]), ("park", [3, 2])]
+        jobs.append({"mode": "scanner", "buf": 1, "flags": 0, "reps": 200})        # small buffer, same strings, many repetitions
+        cmds += [job_line(jobs[-1]), "run 1 4", "run 1 0 1", "run 1 3 2", "run 1 0 4 1 4"]
+        plan += [("ref", [4]), ("conc", [0, 1]), ("park", [3, 2]), ("conc", [0, 4, 1, 4])]
         if not quick:
             cmds.append("run 1 0 1 0 1")
             plan.append(("conc", [0, 1, 0, 1]))
         cases.append(("w_many", cmds))
         meta["w_many"] = (jobs, plan, cmds)
+
+    # the regexp fiber pool is per scanner: a scan that runs out of fibers (ERROR_TOO_MANY_RE_FIBERS alone) does so concurrently,
+    # and does not take fibers away from the others
+    exts, src = RULESETS["fibers"]
+    jobs = [{"mode": "scanner", "buf": 0, "flags": 0, "reps": 3}, {"mode": "rules", "buf": 0, "flags": 0, "reps": 3},
+            {"mode": "scanner", "buf": 1, "flags": 0, "reps": 30}, {"mode": "rfile", "buf": 2, "flags": 0, "reps": 30}]
+    cmds = exts + ["rules " + vlib.hx(src), "buf " + vlib.hx(b"ab" * 3000), "buf " + vlib.hx(b"ab" * 12 + b"x ac"), "buf " + vlib.hx(b"abbbbbc" * 40)] + \
+        [job_line(j) for j in jobs]
+    plan = []
+    for ji in range(len(jobs)):
+        cmds.append("run 1 %d" % ji)
+        plan.append(("ref", [ji]))
+    for sel in ([0, 2], [0, 2, 1, 3, 0, 2, 1, 3], [2, 3] * 4 + [0, 1] * 4):
+        cmds.append("run 1 " + " ".join(map(str, sel)))
+        plan.append(("conc", sel))
+    cases.append(("w_fibers", cmds))
+    meta["w_fibers"] = (jobs, plan, cmds)
+
+    # ------------------------------------------------------------------ (b'') timeouts are per scanner
+    # a CPU bound scan calibrated to SOLO_MS alone; 12 concurrent copies (own scanner / yr_rules_scan_mem) with a timeout of
+    # several times that must end as the solo run does; scans that exceed their timeout alone must still time out, not early
+    # and not late.  Verdicts use the wall time the harness measures around every scan (CLOCK_MONOTONIC), so a loaded machine
+    # gives "inconclusive", never a violation: a correct stopwatch cannot report a timeout before timeout wall time has passed.
+    SOLO_MS, T_OK_S, N0 = 300, 2, 2000000
+    tsrc = RULESETS["time"][1]
+    cal_cmds = ["ext i n 0", "rules " + vlib.hx(tsrc), "buf 61", "job mode=scanner buf=0 reps=3 ext=n:i:%d" % N0, "run 0 0"]
+    cal_out, _ = vlib.run_cases(h, [("cal", cal_cmds)], timeout=120, args=["60"])
+    cal = parse_runs(cal_out.get("cal", []))
+    cal_ms = cal[0]["wall"][0][0] if cal and cal[0].get("wall") else -1
+    time_plan = None
+    if cal_ms > 0:
+        n_ok = max(N0, min(N0 * SOLO_MS // cal_ms, 400000000))
+        tjobs = [{"mode": "scanner", "buf": 0, "flags": 0, "reps": 1, "timeout": T_OK_S, "ext": [("n", "i", str(n_ok))]},
+                 {"mode": "rules", "buf": 1, "flags": 0, "reps": 1, "timeout": T_OK_S},
+                 {"mode": "scanner", "buf": 0, "flags": 0, "reps": 1, "tns": 300000000, "ext": [("n", "i", str(n_ok * 25))]},
+                 {"mode": "scanner", "buf": 1, "flags": 0, "reps": 1, "timeout": 1, "ext": [("n", "i", str(n_ok * 25))]}]
+        t_ms = [T_OK_S * 1000, T_OK_S * 1000, 300, 1000]
+        time_cmds = watch + ["ext i n %d" % n_ok, "rules " + vlib.hx(tsrc), "buf 61", "buf " + vlib.hx(b"xxabcxx")] + [job_line(j) for j in tjobs]
+        time_plan = [("ref", [0]), ("ref", [1]), ("ref", [2]), ("ref", [3]), ("conc", [0, 1] * 6), ("conc", [2, 3, 2, 3] + [0, 1] * 4)]
+        if not quick:
+            time_plan += [("conc", [0, 1] * 4), ("conc", [0, 1] * 12), ("conc", [2, 3] * 4 + [0, 1] * 2)]
+        time_cmds += ["run 1 " + " ".join(map(str, sel)) for _, sel in time_plan]
+        cases.append(("w_time", time_cmds))
+    obs["timeouts"] = {"calibration_ms_for_n0": cal_ms, "n0": N0}
 
     # ------------------------------------------------------------------ (c) rendezvous
     exts, src = RULESETS["mix"]
@@ -473,6 +534,53 @@ def run(chk):
             if m and m.group(1) != "0":
                 obs["error_endings"][m.group(1)] = obs["error_endings"].get(m.group(1), 0) + 1
         obs.setdefault("stress_max_count", []).append(runs[-1]["H"].get("max"))
+
+    # ---- timeouts
+    if time_plan is not None:
+        lines = out.get("w_time", [])
+        runs = parse_runs(lines)
+        to = obs["timeouts"]
+        if any(l.startswith("crash") for l in lines) or len(runs) != len(time_plan):
+            chk.violation("crash:w_time", "timeout workload crashed or did not complete: %s" % [l for l in lines if l.startswith("crash")][:2],
+                          {"harness": "h_thr", "extra_flags": WRAP, "harness_commands": time_cmds, "stderr": err[-1500:]})
+        else:
+            ref, refwall = {}, {}
+            verdict = True
+            for ri, ((kind, sel), run_) in enumerate(zip(time_plan, runs)):
+                rp = check_run_common("w_time", time_cmds, ri, run_, [tjobs[s_] for s_ in sel][:4])
+                for (idx, ji, same, o, trace), (wmin, wmax) in zip(run_["T"], run_["wall"]):
+                    n_scans += 1
+                    rc = int(re.search(r" rc=(-?\d+)", trace).group(1))
+                    T = t_ms[ji]
+                    if kind == "ref":
+                        ref[ji], refwall[ji] = trace, wmax
+                        expected = 0 if ji < 2 else 26
+                        if rc != expected:
+                            verdict = False       # calibration does not hold on this machine right now: no verdict
+                        continue
+                    if not verdict:
+                        continue
+                    n_traces += 1
+                    d = dict(rp, job=tjobs[ji], concurrent=trace, alone=ref[ji], wall_ms=wmax, alone_wall_ms=refwall[ji], timeout_ms=T,
+                             threads=run_["n"])
+                    if rc == 26 and wmin < T // 2:
+                        chk.violation("timeout-shared", "thread %d of %d (%s, timeout %d ms) ended with ERROR_SCAN_TIMEOUT after %d ms of wall time, "
+                                      "long before its own timeout: the stopwatch of a scanner is driven by the other scanners' work (alone the scan "
+                                      "%s after %d ms)" % (idx, run_["n"], tjobs[ji]["mode"], T, wmin, "completes" if ji < 2 else "times out", refwall[ji]), d)
+                    elif trace != ref[ji]:
+                        if ji < 2 and rc == 26 and wmax >= T * 8 // 10:
+                            to["inconclusive"] = to.get("inconclusive", 0) + 1      # machine too loaded: the scan really took that long
+                        elif ji >= 2 and rc == 0:
+                            to["inconclusive"] = to.get("inconclusive", 0) + 1      # cannot happen with n * 25 unless the calibration was far off
+                        else:
+                            chk.violation("interference:timeout", "thread %d of %d (%s, timeout %d ms) reports something else than alone: %s vs %s"
+                                          % (idx, run_["n"], tjobs[ji]["mode"], T, trace, ref[ji]), d)
+                    elif rc == 26 and wmax > 5 * T + 3000:
+                        chk.violation("timeout-late", "thread %d of %d (timeout %d ms) reported its timeout only after %d ms" % (idx, run_["n"], T, wmax), d)
+                    if run_["n"] >= 2:
+                        distinct.add(("w_time", ji, run_["n"]))
+            to.update({"verdict": verdict, "solo_wall_ms": refwall, "timeouts_ms": t_ms,
+                       "concurrent_wall_ms": [r_["wall"] for (k_, _), r_ in zip(time_plan, runs) if k_ != "ref"][:2]})
 
     # ---- rendezvous results against the model
     lines = out.get("rdv", [])
